@@ -1,34 +1,17 @@
 package main
 
 import (
-	"fmt"
-	"github.com/SAP/go-dblib/dsn"
-	"github.com/SAP/go-dblib/tds"
+	"flag"
 )
 
-func try(f func() error) (s string) {
-	defer func() {
-		if r := recover(); r != nil {
-			s = fmt.Sprint("PANIC ", r)
-		}
-	}()
-	return fmt.Sprint(f())
-}
-
 func main() {
-	for _, s := range []string{"=x", "host=a =y", "", " ", "host=\"a", "host=\"", "host=\" x\"", "host='a b'  port=\" 1 \"", "//u:p@h:1/?database=d", "x://h:1/?=z", "x://h:1/?user=a&username=b", "x://:pw@h:1/", "x://h:tls/"} {
-		i := &dsn.Info{}
-		fmt.Printf("%q: simple %s %+v\n", s, try(func() error { return dsn.ParseSimple(s, i) }), *i)
-		i = &dsn.Info{}
-		fmt.Printf("%q: uri %s %+v\n", s, try(func() error { return dsn.ParseURI(s, i) }), *i)
-		i = &dsn.Info{}
-		fmt.Printf("%q: parse %s %+v\n", s, try(func() error { return dsn.Parse(s, i) }), *i)
+	gen := flag.String("gen", "", "write GenC17.v here")
+	out := flag.String("out", "", "write case file here")
+	tier := flag.String("tier", "quick", "quick|thorough")
+	flag.Parse()
+	if *gen != "" {
+		writeGen(*gen)
 	}
-	t := &tds.Info{}
-	fmt.Println(try(func() error { return dsn.ParseSimple("=true", t) }), t.DebugLogPackages)
-	fmt.Println(dsn.FormatURI(dsn.Info{Host: "h", Port: "1", Username: "", Password: "p w", Database: "a/b?c"}))
-	fmt.Println(dsn.FormatURI(tds.Info{}))
-	fmt.Println(dsn.FormatSimple(tds.Info{}))
-	fmt.Println(dsn.FormatSimple(dsn.Info{Host: " a  b = ", Password: "é\u00a0\u3000x"}))
-	fmt.Println(dsn.TagToField(&dsn.Info{}, dsn.Multiref))
+	_ = out
+	_ = tier
 }
